@@ -102,6 +102,15 @@ func c17r1(c *Ctx, id string) {
 				}
 				// exactly one guard besides nothing else
 				extra := len(guardsOf(in.Block())) - 1
+				// a default of reference type is a fresh value, not one shared with other configurations through a
+				// package-level variable (editing one config's default in place would change the "default" of the next)
+				switch elemT.Underlying().(type) {
+				case *types.Slice, *types.Map, *types.Pointer:
+					if strings.Contains(val, "global(") {
+						c.Fail(id, construct, in.Pos(), "default of %s is the package-level value %s shared by every defaulted configuration", path, val)
+						return
+					}
+				}
 				if nonZero && extra == 0 {
 					defaulted[path] = in.Block()
 					c.OK(id, construct, in.Pos(), "set only when unset, to %s", val)
@@ -400,6 +409,7 @@ func mandatoryLookup(lk *ssa.Lookup) bool {
 func init() {
 	p := registry["C17"]
 	p.Rules = append(p.Rules, RuleDef{ID: "C17.R4", Text: "${VAR} substitution: for every match of the placeholder pattern, when LookupEnv(name) reports the variable as set, ALL occurrences of \"${\"+name+\"}\" are replaced by its value in the text that is finally unmarshalled", Run: c17r4})
+	p.Rules = append(p.Rules, RuleDef{ID: "C17.R5", Text: "the int-or-string resolver hands the configured string itself (unmodified) to the integer parser and, only when that fails, to the unit parser; integers map to themselves; nothing else is returned", Run: c17r5})
 	p.Explanation = strings.Replace(p.Explanation, "NOT decided:", "(R4) the ${VAR} substitution replaces every occurrence (ReplaceAll) of exactly \"${\"+name+\"}\" by LookupEnv(name)'s value, only when the variable is set, over all matches, and the substituted text is what gets parsed. NOT decided:", 1)
 }
 
@@ -641,4 +651,86 @@ func c17env(c *Ctx, id string, fn *ssa.Function, envFields map[string]string) {
 		}
 		return ""
 	}, "per membership number: variable set ⇒ field = Atoi(variable), or the process stops when it is not an integer; variable unset ⇒ configured value kept, else a non-zero default")
+}
+
+func c17r5(c *Ctx, id string) {
+	w := c.W
+	fn := w.Func("helpers", "ResolveUnionIntOrStringValue")
+	conv := w.Func("helpers", "convertSizeUnitToByte")
+	c.need(fn != nil && conv != nil, id, "helpers.ResolveUnionIntOrStringValue / convertSizeUnitToByte")
+	c.see(fn)
+	in := "param(" + fn.Params[0].Name() + ")"
+	S := "assert(" + in + ",string)#0"
+	parse := "call(strconv.ParseInt)(" + S + ", const(10), const(64))"
+	unit := "call(" + fname(conv) + ")(" + S + ")"
+	// every call of a parser gets the asserted string itself
+	allInstrs(fn, func(ins ssa.Instruction) {
+		cc := callOf(ins)
+		if cc == nil {
+			return
+		}
+		switch {
+		case isStaticCall(cc, "strconv", "", "ParseInt"):
+			o := w.Origin(ins.(ssa.Value))
+			c.Check(o == parse, id, "arg:ParseInt", ins.Pos(), "ParseInt(the configured string, 10, 64)", "integer parser called as "+o+", expected "+parse)
+		case cc.StaticCallee() == conv:
+			o := w.Origin(ins.(ssa.Value))
+			okOrder := errGuard(ins.Block(), false, func(v ssa.Value) bool { return w.Origin(v) == parse+"#1" })
+			c.Check(o == unit && okOrder, id, "arg:unit-parser", ins.Pos(), "unit parser gets the configured string itself, only after the integer parser failed", fmt.Sprintf("unit parser called as %s (expected %s; only after ParseInt failed: %v)", o, unit, okOrder))
+		}
+	})
+	// returns
+	type cond struct {
+		text string
+		ok   func(b *ssa.BasicBlock) bool
+	}
+	assertOK := func(t string) func(b *ssa.BasicBlock) bool {
+		return func(b *ssa.BasicBlock) bool {
+			return guardedBy(b, true, func(v ssa.Value) bool { return w.Origin(v) == "assert("+in+","+t+")#1" })
+		}
+	}
+	errNil := func(call string) func(b *ssa.BasicBlock) bool {
+		return func(b *ssa.BasicBlock) bool {
+			return errGuard(b, true, func(v ssa.Value) bool { return w.Origin(v) == call+"#1" })
+		}
+	}
+	allowed := map[string]cond{
+		"assert(" + in + ",int)#0":  {"the value is an int", assertOK("int")},
+		"assert(" + in + ",uint)#0": {"the value is a uint", assertOK("uint")},
+		parse + "#0":                {"the integer parser succeeded", errNil(parse)},
+		unit + "#0":                 {"the unit parser succeeded", errNil(unit)},
+	}
+	n := 0
+	allInstrs(fn, func(ins ssa.Instruction) {
+		r, ok := ins.(*ssa.Return)
+		if !ok || len(r.Results) != 1 {
+			return
+		}
+		n++
+		o := w.Origin(r.Results[0])
+		var gs []string
+		for _, g := range guardsOf(ins.Block()) {
+			gs = append(gs, fmt.Sprintf("%v:%s", g.Branch, w.Origin(g.Cond)))
+		}
+		construct := fmt.Sprintf("return:%s", o)
+		if want, ok := allowed[o]; ok {
+			c.Check(want.ok(ins.Block()), id, construct, ins.Pos(), "returned only when "+want.text, "returned on a path where it is not established that "+want.text)
+			return
+		}
+		if o == "const(0)" {
+			// only when the value is none of int, uint, string
+			none := 0
+			for _, g := range gs {
+				if strings.HasPrefix(g, "false:assert("+in+",") && strings.HasSuffix(g, "#1") {
+					none++
+				}
+			}
+			c.Check(none == 3, id, construct, ins.Pos(), "0 only for a value that is neither int, uint nor string", "returns 0 on a path where the value has one of the supported types")
+			return
+		}
+		c.Fail(id, construct, ins.Pos(), "returns %s: neither the integer itself, the parsed integer nor the unit parser's result", o)
+	})
+	if n < 4 {
+		c.Undecided(id, "floor", 0, "only %d returns found in the resolver (5 on the reference tree)", n)
+	}
 }
